@@ -34,7 +34,13 @@ RULE = ("signing histories: a transaction of 1-5 inputs over the standard puzzle
         "or emptied by the caller. Exact boundary values of every hashed field (amounts 0, 2**32-1 .. 2**64-1, sequence / index / "
         "lock time / version at 16-, 31-, 32-bit edges, 252-254 outputs, output scripts of 252-254 and 65535-65536 bytes). One "
         "long-run shard: ONE keychain, ONE transaction object, more than 2**16 + 100 secrets added one by one (thorough: 2**17 + 100), "
-        "every answer of the keychain compared with the reference's running point sum, signing sampled and dense at the boundaries.")
+        "every answer of the keychain compared with the reference's running point sum, signing sampled and dense at the boundaries. "
+        "One history in three hands the caller's collections of secrets, keys, BIP32 paths and redeem / witness scripts to every entry "
+        "point that takes an iterable (build_hash160_lookup, build_p2sh_lookup, Keychain.add_secrets / add_p2s_scripts / add_key_paths / "
+        "add_keys_path) not as a list but as a generator, iter(), map(), itertools.chain, a bare iterator object (walk-once-only, three "
+        "times in four), a tuple, a dict key view or an object with __iter__ only; one spelling per entry point for the whole history, "
+        "drawn from a generator of its own so that all other choices of the history are unchanged. Every entry point (scripts: in "
+        "the redeem-script and in the witness-script role) has a required counter as the source of a validated input.")
 ASSUMPTIONS = [
     "standard policy flag set = all 16 verification flags pycoin defines (on fork-id coins without STRICTENC, as the statement prescribes)",
     "validity is decided twice: by pycoin's own is_solution_ok under that flag set and by the reference interpreter (vmon/refs/script.py) on the "
@@ -53,6 +59,10 @@ ASSUMPTIONS = [
     "a call the library refuses is never judged by itself; the judged pass that follows uses the same keys and request, so whatever "
     "the refused call managed to write is what the pass would have written",
     "the caller's argument objects are compared by value (dict / list / set contents and list order) before and after the call",
+    "'the caller supplies the needed keys and redeem scripts' does not depend on the container: wherever the library's parameter is an "
+    "iterable of secrets / keys / paths / scripts, any iterable yielding the same elements in the same order supplies the same keys and "
+    "scripts, a walk-once-only one included (judged by the signed transaction only, never by the contents of a lookup table; the WIF "
+    "list of sign_tx and the index set stay what their names say)",
     "long run: Keychain.get is the interface the signer reads a keychain through; an answer that is not the supplied key is only a "
     "suspect and becomes a violation when an input paying to that key, signed with the keychain and with exactly that answer, "
     "does not validate",
@@ -189,6 +199,55 @@ INTERLUDES = (["same_tx." + f for f in ("lock_time", "version", "sequence", "out
               + ["other_tx." + f for f in ("lock_time", "version", "sequence", "outpoint_index", "out_amount", "out_script", "spent_amount", "unknown_unspent")]
               + ["arg." + f for f in ("hash_type", "index_out_of_range", "index_not_an_int", "secret_not_an_int", "lookup_without_get", "p2sh_lookup_values_not_bytes",
                                       "lookup_built_from_non_int_secret", "wif_list_with_non_wif")])
+
+
+# -- key and script collections handed over as iterables ---------------------------------------------------------------------
+class OnePassIterator:
+    """an iterator and nothing more: no len, no indexing, one pass"""
+    def __init__(self, seq):
+        self._it = iter(list(seq))
+
+    def __iter__(self):
+        return self
+
+    def __next__(self):
+        return next(self._it)
+
+
+class PlainIterable:
+    """an iterable and nothing more: every iter() starts afresh, but there is no len and no indexing"""
+    def __init__(self, seq):
+        self._seq = list(seq)
+
+    def __iter__(self):
+        return iter(self._seq)
+
+
+# name -> (how the caller spells the collection, whether it can be walked through once only)
+SPELLINGS = {
+    "generator": (lambda s: (x for x in s), True),
+    "iter": (lambda s: iter(s), True),
+    "map": (lambda s: map(lambda x: x, s), True),
+    "chain": (lambda s: itertools.chain(s[:len(s) // 2], s[len(s) // 2:]), True),
+    "iterator_object": (OnePassIterator, True),
+    "tuple": (tuple, False),
+    "dict_keys": (lambda s: dict.fromkeys(s).keys(), False),
+    "iterable_object": (PlainIterable, False),
+}
+# the entry points of the key-supply mechanisms whose collection parameter is an iterable (of secrets, keys, paths, scripts)
+ITER_ENTRIES = ("build_hash160_lookup", "build_p2sh_lookup", "Keychain.add_secrets", "Keychain.add_p2s_scripts", "Keychain.add_key_paths",
+                "Keychain.add_keys_path")
+ITER_SCRIPT_ENTRIES = ("build_p2sh_lookup", "Keychain.add_p2s_scripts")
+# which of them feed a judged pass of each supply mechanism
+MECH_ENTRIES = {
+    "dict": ("build_hash160_lookup", "build_p2sh_lookup"),
+    "wif": ("build_p2sh_lookup",),
+    "keychain": ("Keychain.add_secrets", "Keychain.add_p2s_scripts"),
+    "keychain_hd": ("Keychain.add_key_paths", "Keychain.add_secrets", "Keychain.add_p2s_scripts"),
+    "keychain_multi": ("Keychain.add_key_paths", "Keychain.add_keys_path", "Keychain.add_secrets", "Keychain.add_p2s_scripts"),
+}
+ITER_VALID = (["iterable.valid:" + e for e in ITER_ENTRIES if e not in ITER_SCRIPT_ENTRIES]
+              + ["iterable.valid:%s.%s" % (e, w) for e in ITER_SCRIPT_ENTRIES for w in ("redeem_script", "witness_script")])
 
 
 class Puzzle:
@@ -384,9 +443,21 @@ class History:
         return d
 
     # -- key supply ------------------------------------------------------------------------------------
+    def spell(self, entry, seq):
+        """the collection as the caller hands it to this entry point: the list itself, or (histories with self.spellings) another
+        iterable over the same elements in the same order - a generator, an iterator, a view, an object that has __iter__ only"""
+        sp = getattr(self, "spellings", None)
+        if not sp:
+            return seq
+        name = sp[entry]
+        self.rec.ev("iterable.handed_over:%s" % entry)
+        self.rec.ev("iterable.spelling:%s" % name)
+        self.iter_used[entry] = name
+        return SPELLINGS[name][0](list(seq))
+
     def scripts_lookup(self):
         scripts = [s for p in self.puzzles for s in p.scripts]
-        return self.net.tx.solve.build_p2sh_lookup(scripts), scripts
+        return self.net.tx.solve.build_p2sh_lookup(self.spell("build_p2sh_lookup", scripts)), scripts
 
     def sign_with(self, key_indices, mechanism, idx_set=None, report_raise=True):
         """one signing pass supplying exactly these keys. With report_raise=False an exception from the signing call is not
@@ -425,7 +496,7 @@ class History:
             self.log[-1]["kept_solver"] = True
             self.rec.ev("Solver.sign(kept instance)")
         if mechanism == "dict":
-            lookup = self.caller_object("hash160_lookup", fk, lambda: net.tx.solve.build_hash160_lookup(secrets))
+            lookup = self.caller_object("hash160_lookup", fk, lambda: net.tx.solve.build_hash160_lookup(self.spell("build_hash160_lookup", secrets)))
             owned["hash160_lookup"] = lookup
             snap = self.snapshot(owned)
             st, r = observe(sign, lookup, p2sh_lookup=p2sh_lookup, **kwargs)
@@ -450,21 +521,21 @@ class History:
                 self.kc_roots = set()
                 if not self.kc_via_account:
                     for j, root in enumerate(self.keys.roots):
-                        self.kc.add_key_paths(root.public_copy(), [self.keys.path[i] for i in range(len(self.keys.d)) if self.keys.root_of[i] == j])
+                        self.kc.add_key_paths(root.public_copy(), self.spell("Keychain.add_key_paths", [self.keys.path[i] for i in range(len(self.keys.d)) if self.keys.root_of[i] == j]))
                 else:
                     for j, root in enumerate(self.keys.roots):
                         for acct in ("0", "1", "2"):
                             rest = [self.keys.path[i].split("/", 1)[1] for i in range(len(self.keys.d))
                                     if self.keys.root_of[i] == j and self.keys.path[i].split("/", 1)[0] == acct]
                             if rest:
-                                self.kc.add_key_paths(root.subkey_for_path(acct).public_copy(), rest)
-                self.kc.add_p2s_scripts(scripts)
+                                self.kc.add_key_paths(root.subkey_for_path(acct).public_copy(), self.spell("Keychain.add_key_paths", rest))
+                self.kc.add_p2s_scripts(self.spell("Keychain.add_p2s_scripts", scripts))
             for k in sorted(key_indices):
                 self.kc_roots.add(self.keys.root_of[k])
             if not self.kc_via_account:
-                self.kc.add_secrets([self.keys.roots[j] for j in sorted(self.kc_roots)])
+                self.kc.add_secrets(self.spell("Keychain.add_secrets", [self.keys.roots[j] for j in sorted(self.kc_roots)]))
             else:
-                self.kc.add_secrets([self.keys.roots[j].subkey_for_path(acct) for j in sorted(self.kc_roots) for acct in ("0", "1", "2")])
+                self.kc.add_secrets(self.spell("Keychain.add_secrets", [self.keys.roots[j].subkey_for_path(acct) for j in sorted(self.kc_roots) for acct in ("0", "1", "2")]))
             snap = self.snapshot(owned)
             st, r = observe(sign, self.kc, p2sh_lookup=self.kc, **kwargs)
             self.rec.ev("Tx.sign(keychain_hd)")
@@ -477,8 +548,8 @@ class History:
             kc = net.keychain()
             owned["secret_keys"] = [net.keys.private(s) for s in secrets]
             snap = self.snapshot(owned)
-            kc.add_secrets(owned["secret_keys"])
-            kc.add_p2s_scripts(scripts)
+            kc.add_secrets(self.spell("Keychain.add_secrets", owned["secret_keys"]))
+            kc.add_p2s_scripts(self.spell("Keychain.add_p2s_scripts", scripts))
             st, r = observe(sign, kc, p2sh_lookup=kc, **kwargs)
             self.rec.ev("Tx.sign(keychain)")
         if judge_args:
@@ -546,23 +617,23 @@ class History:
                 steps = []
                 if reg in ("master_public", "master_private", "master_and_account"):
                     node = root if reg == "master_private" else root.public_copy()
-                    steps.append(lambda node=node, full=full: self.kc.add_key_paths(node, list(full)))
+                    steps.append(lambda node=node, full=full: self.kc.add_key_paths(node, self.spell("Keychain.add_key_paths", list(full))))
                 if reg in ("account", "master_and_account"):
                     for a in accounts:
                         if by_acct[a]:
-                            steps.append(lambda a=a: self.kc.add_key_paths(root.subkey_for_path(a).public_copy(), list(by_acct[a])))
+                            steps.append(lambda a=a: self.kc.add_key_paths(root.subkey_for_path(a).public_copy(), self.spell("Keychain.add_key_paths", list(by_acct[a]))))
                     # the root key itself is not below any account node
-                    steps.append(lambda: self.kc.add_key_paths(root.public_copy(), [""]))
+                    steps.append(lambda: self.kc.add_key_paths(root.public_copy(), self.spell("Keychain.add_key_paths", [""])))
                 if reg == "keys_path":
                     # add_keys_path(keys, path): one path, any number of wallets - this wallet alone, or together with its
                     # fingerprint twin / a bystander (whose leaves on this wallet's paths pay nobody here)
                     mates = [root.public_copy()] + ([K.roots[j ^ 1].public_copy()] if rng.random() < 0.5 else [])
                     for path in full:
-                        steps.append(lambda path=path: self.kc.add_keys_path(list(mates), path))
+                        steps.append(lambda path=path: self.kc.add_keys_path(self.spell("Keychain.add_keys_path", list(mates)), path))
                 rng.shuffle(steps)
                 for f in steps:
                     f()
-            self.kc.add_p2s_scripts(scripts)
+            self.kc.add_p2s_scripts(self.spell("Keychain.add_p2s_scripts", scripts))
         new = sorted({K.root_of[k] for k in key_indices} - self.kc_roots)
         if {0, 1} & (set(new) | self.kc_roots) and rng.random() < 0.6:
             # the fingerprint twin moves in as well (its keys are then supplied, too)
@@ -589,7 +660,7 @@ class History:
                 self.kc_order.append(j)
         self.kc_roots |= set(new)
         if rng.random() < 0.5:
-            self.kc.add_secrets([s for _, s in flat])
+            self.kc.add_secrets(self.spell("Keychain.add_secrets", [s for _, s in flat]))
         else:
             for _, s in flat:
                 self.kc.add_secret(s)
@@ -792,6 +863,32 @@ class History:
         if nsig != need:
             self.rec.violation("canonical.signature_count", self.case({"input": i, "items": items}), nsig, need)
 
+    def one_pass_entries(self, i, mech):
+        """the iterable-taking entry points that, in this history, were handed a walk-once-only collection holding something
+        input i needs under this supply mechanism; script entry points come with the role the script plays for the input"""
+        used = getattr(self, "iter_used", None)
+        if not used:
+            return []
+        p, out = self.puzzles[i], []
+        for e in MECH_ENTRIES.get(mech, ()):
+            if e not in used or not SPELLINGS[used[e]][1]:
+                continue
+            if e in ITER_SCRIPT_ENTRIES:
+                wrapper = p.kind.split(":")[-1]
+                if p.scripts and wrapper.startswith("p2sh"):
+                    out.append(e + ".redeem_script")            # found by its hash160
+                if p.scripts and wrapper.endswith("p2wsh"):
+                    out.append(e + ".witness_script")           # found by its sha256
+            elif e == "Keychain.add_keys_path":
+                if any(self.kc_reg[self.keys.root_of[k]] == "keys_path" for k in p.key_idx):
+                    out.append(e)
+            elif e == "Keychain.add_key_paths" and mech == "keychain_multi":
+                if any(self.kc_reg[self.keys.root_of[k]] != "keys_path" for k in p.key_idx):
+                    out.append(e)
+            else:
+                out.append(e)
+        return out
+
     def check_step(self, before, asked, already_valid, what, raised=None):
         """after a signing pass: validity model, frame condition, canonical form"""
         rec = self.rec
@@ -820,8 +917,10 @@ class History:
                 continue
             if py_ok is not exp:
                 if exp:
-                    rec.violation("validity.signed_input_invalid.%s%s%s" % (kind, ".m>=9" if (p.m or 0) >= 9 else "", ".several_secrets_in_one_keychain" if mech == "keychain_multi" else ""),
-                                  self.case({"input": i, "ref": ref}), py_ok, True)
+                    once = self.one_pass_entries(i, mech)
+                    rec.violation("validity.signed_input_invalid.%s%s%s%s" % (kind, ".m>=9" if (p.m or 0) >= 9 else "", ".several_secrets_in_one_keychain" if mech == "keychain_multi" else "",
+                                                                               ".collection_handed_over_as_iterator" if once else ""),
+                                  self.case({"input": i, "ref": ref, "walk_once_collections": once}), py_ok, True)
                 elif py_ok is True:
                     rec.violation("validity.underSigned_input_reported_valid.%s" % kind, self.case({"input": i, "ref": ref}), py_ok, False)
                 else:
@@ -843,6 +942,9 @@ class History:
                 # which region of the quantified-over domain this validated input belongs to
                 rec.ev("valid:" + kind)
                 rec.ev("valid:via:" + mech)
+                for e in self.one_pass_entries(i, mech):
+                    # the caller's keys / paths / scripts for this input went in as a generator, an iterator, a map ...
+                    rec.ev("iterable.valid:" + e)
                 for f in getattr(self, "edges", ()):
                     rec.ev("valid:boundary_value:" + f)
                 if mech == "keychain_multi" and (p.m is None or p.m == len(p.key_idx)):
@@ -887,6 +989,23 @@ class History:
             rec.violation("validity.bad_solution_count", self.case(), bad, want_bad)
         return after, v
 
+    def choose_spellings(self):
+        """one history in three hands its key / path / script collections over as something other than a list - per entry point
+        one spelling for the whole history. Decided by a generator of its own (a function of the history's coordinates), so
+        that every other choice of the history is what it would be without this."""
+        self.spellings, self.iter_used = None, {}
+        coord = getattr(self, "coord", None)
+        if not coord:
+            return
+        seed, tier, shard, k = coord
+        irng = shard_rng(seed, PROPERTY, tier, shard, salt="iterables:%s" % k)
+        if irng.random() < 1 / 3:
+            names = sorted(SPELLINGS)
+            once = [x for x in names if SPELLINGS[x][1]]
+            # walk-once-only spellings three times in four
+            self.spellings = {e: irng.choice(once) if irng.random() < 0.75 else irng.choice(names) for e in ITER_ENTRIES}
+            self.log.append({"collections_as": dict(self.spellings)})
+
     # -- scenarios --------------------------------------------------------------------------------------
     def run(self):
         rng = self.rng
@@ -899,6 +1018,7 @@ class History:
             self.keys = hd_universe(self.net, self.netcode, HDKeysMulti)
         self.boundaries = True
         self.build()
+        self.choose_spellings()
         # what the caller does with the argument objects it owns: builds them afresh for every pass, hands the very same objects
         # over again in later passes, or empties them after each call
         self.arg_mode = rng.choice(["fresh", "reuse", "reuse", "scrub"])
@@ -1062,6 +1182,9 @@ REQUIRED = (
     + ["args.same_object_passed_again", "args.returned_container_emptied_by_caller"]
     # exact boundary values of the hashed fields, in a transaction with a validated input
     + ["valid:boundary_value:" + f for f in EDGE_FIELDS]
+    # keys, paths and scripts handed over as a walk-once-only iterable, to every entry point that takes an iterable, as the
+    # source of a validated input (scripts: in the redeem-script and in the witness-script role); every spelling driven
+    + ITER_VALID + ["iterable.spelling:" + x for x in sorted(SPELLINGS)]
 )
 
 
